@@ -459,7 +459,49 @@ func cacheStoreRules(c *Ctx, rule string) {
 	var cursor ssa.Value
 	single := true
 	tailStores := storesToField(fn, fTail)
+	// a local (a named result spilled because of the deferred unlock) that is assigned
+	// once, before its use, stands for the value assigned
+	unspill := func(v ssa.Value) ssa.Value {
+		for k := 0; k < 3; k++ {
+			u, ok := v.(*ssa.UnOp)
+			if !ok || u.Op != token.MUL {
+				return v
+			}
+			al, ok := u.X.(*ssa.Alloc)
+			if !ok {
+				return v
+			}
+			var stores []*ssa.Store
+			okRefs := true
+			for _, r := range *al.Referrers() {
+				switch x := r.(type) {
+				case *ssa.Store:
+					if x.Addr == ssa.Value(al) {
+						// `return ..., index` of a named result stores the local into itself
+						if ld, isLd := x.Val.(*ssa.UnOp); isLd && ld.Op == token.MUL && ld.X == ssa.Value(al) {
+							continue
+						}
+						stores = append(stores, x)
+					} else {
+						okRefs = false
+					}
+				case *ssa.UnOp, *ssa.DebugRef:
+				default:
+					okRefs = false
+				}
+			}
+			if !okRefs || len(stores) != 1 || !instrBefore(stores[0], u) {
+				return v
+			}
+			v = stores[0].Val
+		}
+		return v
+	}
 	isCursor := func(v ssa.Value) bool {
+		if v == cursor {
+			return true
+		}
+		v = unspill(v)
 		if v == cursor {
 			return true
 		}
@@ -488,8 +530,8 @@ func cacheStoreRules(c *Ctx, rule string) {
 			if !ok || !isLoadOfField(ia.X, fEntries) {
 				continue
 			}
-			if cursor == nil && isLoadOfField(ia.Index, fTail) {
-				cursor = ia.Index
+			if cursor == nil && isLoadOfField(unspill(ia.Index), fTail) {
+				cursor = unspill(ia.Index)
 			}
 			if !isCursor(ia.Index) {
 				single = false
